@@ -111,7 +111,7 @@ func seiNote(sig string) string {
 // ---------------------------------------------------------------------------
 // MPEG-TS (HTTP-TS body, concatenated HLS segments)
 
-func checkTs(who, leg string, body []byte, pub *published) *pbt.Violation {
+func checkTs(who, leg string, body []byte, pub *published, attach int) *pbt.Violation {
 	cd := pub.cd
 	if len(body)%188 != 0 {
 		return pbt.V(leg+"/partial-packet", "%s: %d bytes are not a whole number of 188-byte packets", who, len(body))
@@ -127,6 +127,24 @@ func checkTs(who, leg string, body []byte, pub *published) *pbt.Violation {
 		case "pes-length-mismatch", "pes-no-start-code", "pes-truncated", "pes-header-overflow", "pes-pts-dts-flags", "af-length", "af-overflow":
 			return pbt.V(leg+"/ts-syntax/"+pr.Kind, "%s: %s", who, pr.String())
 		}
+	}
+	// continuity counters through lal's real carry (remuxer -> GOP cache / HLS muxer): per PID they count up by one
+	// with every packet (2.4.3.3).  The concatenated HLS segments each start with the same PAT / PMT packets, so the PSI
+	// PIDs are exempt there; the elementary-stream PIDs must run on across segment boundaries (lal announces no
+	// discontinuity between its segments).
+	psi := map[uint16]bool{tsref.PIDPAT: true}
+	for _, pat := range res.PATs {
+		for _, e := range pat.Entries {
+			if e.ProgramNumber != 0 {
+				psi[e.PID] = true
+			}
+		}
+	}
+	for _, e := range res.CC {
+		if leg == "hls" && psi[e.PID] {
+			continue
+		}
+		return pbt.V(leg+"/continuity", "%s: continuity_counter %s on PID %#x at packet %d: expected %d, got %d (%d such events)", who, e.Kind, e.PID, e.Packet, e.Expected, e.Got, len(res.CC))
 	}
 	pmt := res.LastPMT()
 	if pmt == nil {
@@ -165,6 +183,8 @@ func checkTs(who, leg string, body []byte, pub *published) *pbt.Violation {
 		return pbt.V(leg+"/pmt-missing-track", "%s: the program map table announces no audio stream (codec %s): a demuxer cannot recover the audio frames", who, cd.Audio)
 	}
 
+	bound := pub.tsBound(attach, pub.flatVideo("ts"))
+
 	// ---- video
 	if hasV {
 		flat := pub.flatVideo("ts")
@@ -172,11 +192,13 @@ func checkTs(who, leg string, body []byte, pub *published) *pbt.Violation {
 		var recv [][]byte
 		var refs []unitRef
 		pess := res.ByPID(vpid)
+		pesNals := make([][][]byte, len(pess))
 		for pi, pes := range pess {
 			if !pes.HasPTS {
 				return pbt.V(leg+"/video/pes-without-pts", "%s: video PES %d carries no PTS", who, pi)
 			}
-			for _, n := range lalclient.SplitAnnexB(pes.Payload) {
+			pesNals[pi] = lalclient.SplitAnnexB(pes.Payload)
+			for _, n := range pesNals[pi] {
 				if keepNal(cd.Video, "ts", n) {
 					recv = append(recv, n)
 					refs = append(refs, unitRef{pes: pi})
@@ -187,6 +209,12 @@ func checkTs(who, leg string, body []byte, pub *published) *pbt.Violation {
 		if v != nil {
 			return v
 		}
+		bound = pub.tsBound(attach, flat)
+		if off > bound.maxVOff {
+			return pbt.V(leg+"/started-late", "%s: video starts at published unit #%d (frame at item %d), but it must have started by unit #%d (%s): the %d units in between are missing",
+				who, off, pub.video[flat[off%len(flat)].frame].item, bound.maxVOff, bound.why, off-bound.maxVOff)
+		}
+		inForce := pub.setsInForce()
 		// timing per PES
 		haveConst := false
 		var konst uint64
@@ -218,6 +246,44 @@ func checkTs(who, leg string, body []byte, pub *published) *pbt.Violation {
 			if got := (pes.PTS + mod33 - dts) % mod33; got != 90*uint64(fr.cts)%mod33 {
 				return pbt.V(leg+"/video/pts-minus-dts", "%s: video frame published at item %d (ts %d, composition offset %d ms): PTS-DTS = %d ticks, want %d", who, fr.item, fr.ts, fr.cts, got, 90*uint64(fr.cts))
 			}
+			// the parameter sets standing in front of a key frame's first IDR / IRAP unit are the ones in force
+			if want, ok := inForce[f]; ok {
+				var got [][]byte
+				seenIrap := false
+				for _, n := range pesNals[pi] {
+					if len(n) == 0 {
+						continue
+					}
+					if isIrap(cd.Video, n) {
+						seenIrap = true
+						break
+					}
+					if isParamSet(cd.Video, n) {
+						got = append(got, n)
+					}
+				}
+				if seenIrap {
+					match := false
+					for _, w := range want {
+						if len(got) >= len(w) && len(w) > 0 {
+							tail := got[len(got)-len(w):]
+							same := true
+							for x := range w {
+								if !bytes.Equal(tail[x], w[x]) {
+									same = false
+								}
+							}
+							if same {
+								match = true
+							}
+						}
+					}
+					if !match {
+						return pbt.V(leg+"/video/parameter-sets-not-in-force", "%s: key frame published at item %d (ts %d): the parameter sets in front of its first IDR/IRAP unit are %x, in force are %x (latest complete group) / %x (latest per type)",
+							who, fr.item, fr.ts, got, [][]byte(want[0]), [][]byte(want[1]))
+					}
+				}
+			}
 			i = j
 		}
 	}
@@ -231,6 +297,13 @@ func checkTs(who, leg string, body []byte, pub *published) *pbt.Violation {
 		var recv [][]byte
 		var refs []aref
 		pess := res.ByPID(apid)
+		var asc *codecref.ASC
+		if cd.Audio == "aac" {
+			var err error
+			if asc, err = codecref.ParseASC(pub.asc); err != nil {
+				harness("published AudioSpecificConfig % x: %v", pub.asc, err)
+			}
+		}
 		for pi, pes := range pess {
 			if !pes.HasPTS {
 				return pbt.V(leg+"/audio/pes-without-pts", "%s: audio PES %d carries no PTS", who, pi)
@@ -260,9 +333,9 @@ func checkTs(who, leg string, body []byte, pub *published) *pbt.Violation {
 				if fl < hl || pos+fl > len(b) {
 					return pbt.V(leg+"/adts/frame-length", "%s: audio PES %d, ADTS frame %d at offset %d: frame_length %d with %d bytes left in the PES (header % x)", who, pi, n, pos, fl, len(b)-pos, b[pos:pos+7])
 				}
-				if int(h.Profile) != cd.AscObj-1 || int(h.FreqIndex) != cd.AscFreq || int(h.ChannelConfig) != cd.AscChan {
-					return pbt.V(leg+"/adts/inconsistent-with-asc", "%s: audio PES %d, ADTS frame %d: profile %d, sampling_frequency_index %d, channel_configuration %d; published AudioSpecificConfig: object type %d (profile %d), frequency index %d, channel configuration %d",
-						who, pi, n, h.Profile, h.FreqIndex, h.ChannelConfig, cd.AscObj, cd.AscObj-1, cd.AscFreq, cd.AscChan)
+				if int(h.Profile) != asc.ObjectType-1 || int(h.FreqIndex) != asc.FreqIndex || int(h.ChannelConfig) != asc.ChannelConfig {
+					return pbt.V(leg+"/adts/inconsistent-with-asc", "%s: audio PES %d, ADTS frame %d: profile %d, sampling_frequency_index %d, channel_configuration %d; published AudioSpecificConfig % x: object type %d (profile %d), frequency index %d, channel configuration %d",
+						who, pi, n, h.Profile, h.FreqIndex, h.ChannelConfig, pub.asc, asc.ObjectType, asc.ObjectType-1, asc.FreqIndex, asc.ChannelConfig)
 				}
 				recv = append(recv, b[pos+hl:pos+fl])
 				refs = append(refs, aref{pi, n == 0})
@@ -273,6 +346,10 @@ func checkTs(who, leg string, body []byte, pub *published) *pbt.Violation {
 		off, v := compareAudio(leg, who, pub, recv)
 		if v != nil {
 			return v
+		}
+		if off > bound.maxAOff {
+			return pbt.V(leg+"/started-late", "%s: audio starts at published frame #%d, but it must have started by frame #%d (%s): the %d frames in between are missing",
+				who, off, bound.maxAOff, bound.why, off-bound.maxAOff)
 		}
 		haveConst := false
 		var konst uint64
@@ -311,7 +388,7 @@ func rtpWant(tsMs uint32, clock int) uint32 {
 	return uint32((uint64(tsMs)*uint64(clock) + 500) / 1000)
 }
 
-func checkRtsp(who string, sdp []byte, frames []rtspref.Frame, pub *published) *pbt.Violation {
+func checkRtsp(who string, sdp []byte, frames []rtspref.Frame, pub *published, attach int, udp, lost bool) *pbt.Violation {
 	cd := pub.cd
 	sess, err := sdpref.Parse(sdp)
 	if err != nil {
@@ -347,6 +424,65 @@ func checkRtsp(who string, sdp []byte, frames []rtspref.Frame, pub *published) *
 			return pbt.V("rtsp/sdp-missing-track", "%s: session description has no %s audio track for the published audio; sdp=%q", who, want, sdp)
 		}
 	}
+	// the clock rate is the codec's, not whatever the session description says
+	for _, t := range []*rtspTrack{vt, at} {
+		if t == nil || (t.media == "video" && cd.Video == "") || (t.media == "audio" && cd.Audio == "") {
+			continue
+		}
+		want, err := expectedClock(cd, t.media, pub.asc)
+		if err != nil {
+			harness("published AudioSpecificConfig % x: %v", pub.asc, err)
+		}
+		if t.clock != want {
+			return pbt.V("rtsp/sdp-clock-rate", "%s: session description announces %s/%d for the %s track, the codec's RTP clock rate is %d; sdp=%q", who, t.encoding, t.clock, t.media, want, sdp)
+		}
+	}
+	if udp {
+		// RTP over UDP: a track that the session description announces and that has frames to deliver must not stay
+		// silent; apart from that the consumer is judged only when no datagram went missing on the way (a gap in the
+		// sequence numbers cannot be attributed to lal)
+		for _, t := range []*rtspTrack{vt, at} {
+			if t == nil {
+				continue
+			}
+			n := 0
+			for _, f := range frames {
+				if f.Channel == t.channel {
+					n++
+				}
+			}
+			if n == 0 {
+				return pbt.V("rtspu/track-silent", "%s: no RTP datagram at all arrived for the %s track (%d datagrams on the other track)", who, t.media, len(frames))
+			}
+		}
+		pbt.Count("rtspu-consumers", 1)
+		if lost {
+			pbt.Count("rtspu-inconclusive-datagram-loss", 1)
+			return nil
+		}
+		for _, t := range []*rtspTrack{vt, at} {
+			if t == nil {
+				continue
+			}
+			var prev *rtpref.Packet
+			for _, f := range frames {
+				if f.Channel != t.channel {
+					continue
+				}
+				p, err := rtpref.Parse(f.Payload)
+				if err != nil {
+					break // reported below
+				}
+				if prev != nil && p.Seq != prev.Seq+1 {
+					pbt.Count("rtspu-inconclusive-datagram-loss", 1)
+					return nil // lost or reordered datagram: inconclusive
+				}
+				prev = p
+			}
+		}
+	}
+	flatR := pub.flatVideo("rtsp")
+	bound := pub.rtspBound(attach, flatR)
 	collect := func(t *rtspTrack) ([]*rtpref.Packet, *pbt.Violation) {
 		var pk []*rtpref.Packet
 		for _, f := range frames {
@@ -378,7 +514,7 @@ func checkRtsp(who string, sdp []byte, frames []rtspref.Frame, pub *published) *
 		if err != nil {
 			return pbt.V("rtsp/video/depacketize", "%s: after %d units: %v", who, len(units), err)
 		}
-		flat := pub.flatVideo("rtsp")
+		flat := flatR
 		var recv [][]byte
 		var rts []uint32
 		for _, u := range units {
@@ -390,6 +526,10 @@ func checkRtsp(who string, sdp []byte, frames []rtspref.Frame, pub *published) *
 		off, v := compareVideo("rtsp", who, pub, flat, recv)
 		if v != nil {
 			return v
+		}
+		if off > bound.maxVOff {
+			return pbt.V("rtsp/started-late", "%s: video starts at published unit #%d, but it must have started by unit #%d (%s): the %d units in between are missing",
+				who, off, bound.maxVOff, bound.why, off-bound.maxVOff)
 		}
 		for i := range recv {
 			fr := pub.video[flat[off+i].frame]
@@ -431,6 +571,10 @@ func checkRtsp(who string, sdp []byte, frames []rtspref.Frame, pub *published) *
 		off, v := compareAudio("rtsp", who, pub, recv)
 		if v != nil {
 			return v
+		}
+		if off > bound.maxAOff {
+			return pbt.V("rtsp/started-late", "%s: audio starts at published frame #%d, but it must have started by frame #%d (%s): the %d frames in between are missing",
+				who, off, bound.maxAOff, bound.why, off-bound.maxAOff)
 		}
 		for i, u := range units {
 			want := pub.audio[off+i]
